@@ -250,7 +250,7 @@ def r12_python(chk):
             call = cs[0]
             sig = pyrules.kernel_sig(rel, kname)
             mp, probs = bind(call, sig)
-            got = {p: norm(a) for p, a in mp.items()}
+            got = pyrules.bound_texts(fn, mp)
             exp = {'kt': 'kt', 'size': 'size', 'row0': place[blk][0], 'col0': place[blk][1]}
             if 'kr' in sig.names:
                 exp['kr'] = 'kr'
